@@ -244,9 +244,51 @@ fn run_addresses() {
     witness("end_addresses");
 }
 
+/// found missing by seed C08h: a contract overwrites and then removes a key it already holds, in one
+/// call (or over two messages of one batch); what it reads back, the raw query, the dump and both
+/// accessors must agree afterwards: the key is gone
+fn overwrite_then_remove_a_committed_key() {
+    let mut w = world(2);
+    let (k0, k1, user) = (w.ks[0].clone(), w.ks[1].clone(), w.user.clone());
+    for k_ in [&k0, &k1] {
+        w.app.execute_contract(user.clone(), k_.clone(), &Script::new().write("slot", "v0").write("other", "o"), &[]).unwrap();
+    }
+    let one_call = choose(2) == 1;
+    sc::trace_clear();
+    let r = if one_call {
+        w.app
+            .execute_contract(user.clone(), k0.clone(), &Script::new().write("slot", "v1").then(Step::Remove { key: "slot".into() }).then(Step::RangeOwn { tag: "own".into() }), &[])
+            .map(|_| ())
+    } else {
+        let m1: cosmwasm_std::CosmosMsg = cosmwasm_std::WasmMsg::Execute { contract_addr: k0.to_string(), msg: Script::new().write("slot", "v1").bin(), funds: vec![] }.into();
+        let m2: cosmwasm_std::CosmosMsg =
+            cosmwasm_std::WasmMsg::Execute { contract_addr: k0.to_string(), msg: Script::new().then(Step::Remove { key: "slot".into() }).then(Step::RangeOwn { tag: "own".into() }).bin(), funds: vec![] }.into();
+        w.app.execute_multi(user.clone(), vec![m1, m2]).map(|_| ())
+    };
+    check_native("write_succeeds", r.is_ok(), || format!("{:?}", r.as_ref().err().map(|e| e.to_string())));
+    let trace = sc::trace_take();
+    let want = vec![(b"other".to_vec(), b"o".to_vec())];
+    let own = trace.iter().flat_map(|e| e.obs.iter()).find_map(|(t, o)| match (t.as_str(), o) {
+        ("own", Obs::Range(r)) => Some(r.clone()),
+        _ => None,
+    });
+    check_native("contract_reads_back_exactly_what_it_wrote", own.as_ref() == Some(&want), || format!("{:?}", own));
+    let dump = w.app.dump_wasm_raw(&k0);
+    check_native("state_dump_is_the_same_data", dump == want, || format!("{:?}", dump));
+    let raw = w.app.wrap().query_wasm_raw(k0.to_string(), b"slot".to_vec()).unwrap();
+    check_native("raw_query_is_the_same_data", raw.is_none(), || format!("{:?}", raw));
+    let acc: Vec<_> = w.app.contract_storage(&k0).range(None, None, Order::Ascending).collect();
+    check_native("contract_storage_accessor_is_the_same_data", acc == want, || format!("{:?}", acc));
+    // the sibling from the same code keeps its own copy
+    let d1 = w.app.dump_wasm_raw(&k1);
+    check_native("other_contract_sees_nothing", d1 == vec![(b"other".to_vec(), b"o".to_vec()), (b"slot".to_vec(), b"v0".to_vec())], || format!("{:?}", d1));
+    witness("end_overwrite_remove");
+}
+
 pub fn scenarios(_tier: &str) -> Vec<Scenario> {
     vec![
         Scenario::new("crafted_keys_two_contracts_same_code", &["end"], run),
         Scenario::new("crafted_address_pairs_from_a_custom_generator", &["end_addresses"], run_addresses),
+        Scenario::new("committed_key_overwritten_then_removed", &["end_overwrite_remove"], overwrite_then_remove_a_committed_key),
     ]
 }
